@@ -46,7 +46,7 @@ func init() {
 			"number texts: strconv.ParseFloat is trusted; the model keeps the exact decimal value and the harness compares with the nearest float64",
 			"number texts with '_' digit separators, 'inf'/'nan' or hex floats are reported unsupported by the driver; texts never contain U+001F or non-ASCII characters; cookie values avoid ';', '\"', '\\' and outer spaces (net/http cookie syntax)",
 			"deepObject keys have at most three bracket segments and canonical decimal array indexes; keys whose bracket groups coincide (p[a] and p[a]zz) are order-dependent in the code: the model answers for both map orders, at most one collision of two single-valued keys per request (other shapes are reported unsupported by the driver and only run for crashes)",
-			"schemas carry no default, pattern, format other than int32, nullable or nested compositions",
+			"schemas carry no default, pattern, format other than int32, nullable or nested compositions; a schema without type carries at most an enum",
 		},
 	})
 }
@@ -122,6 +122,12 @@ func c05Leaf(m map[string]any) *openapi3.Schema {
 			u := uint64(f)
 			s.MaxItems = &u
 		}
+		for _, e := range jlist(m["enum"]) {
+			s.Enum = append(s.Enum, c05EnumVal(e))
+		}
+		return s
+	case "untyped":
+		s := &openapi3.Schema{} // no type, no composition
 		for _, e := range jlist(m["enum"]) {
 			s.Enum = append(s.Enum, c05EnumVal(e))
 		}
@@ -953,6 +959,33 @@ func genC05(ctx *hx.Ctx, emit0 func(hx.Case)) {
 			}
 		}
 	}
+	// ---- A2. schemas without type ({} and {enum: [...]}): every cell × texts × presence
+	untypedSchemas := []map[string]any{{"k": "untyped", "enum": []any{}}, {"k": "untyped", "enum": []any{"a", "id", "12"}}}
+	for _, cl := range c05Cells {
+		for ni, name := range allNames {
+			if !nameOK(cl, name) || (ni >= 2 && ni%2 == 1) {
+				continue
+			}
+			for _, sch := range untypedSchemas {
+				for _, txt := range []string{"a", "id", "12", "dave", "x,y", "1.5", "true"} {
+					for _, req := range bools {
+						c, ok := c05EncCase(cl, name, sch, "prim", txt, nil, nil, req, false, nil)
+						if ok {
+							c["enc"] = nil // the round-trip oracle is for typed leaves
+							emit(c)
+						}
+					}
+				}
+				for mode := 0; mode < 3; mode++ {
+					for _, req := range bools {
+						for _, ae := range bools {
+							emit(c05Case(cl, name, sch, c05AbsentCar(cl, name, mode), req, ae))
+						}
+					}
+				}
+			}
+		}
+	}
 	// ---- B. arrays: every cell × item type × lists of 1..3 texts (all lists of length ≤ 2 over the text set, sampled triples)
 	for _, cl := range c05Cells {
 		for ni, name := range allNames {
@@ -1247,7 +1280,8 @@ func genC05(ctx *hx.Ctx, emit0 func(hx.Case)) {
 		{"k": "arr", "items": c05PS("integer")}, {"k": "arr", "items": c05PS("string")}, objSchemas[0], objSchemas[1]}
 	// … and leaves whose values / enums meet across alternatives (a value read by one alternative is validated against all)
 	leaves = append(leaves, c05PS("int32"), c05With(c05PS("integer"), "enum", []any{5, 12}),
-		map[string]any{"k": "arr", "items": c05PS("integer"), "enum": []any{[]any{1, 2}}}, map[string]any{"k": "arr", "items": c05PS("int32")})
+		map[string]any{"k": "arr", "items": c05PS("integer"), "enum": []any{[]any{1, 2}}}, map[string]any{"k": "arr", "items": c05PS("int32")},
+		map[string]any{"k": "untyped", "enum": []any{}})
 	compRaw := []string{"5", "12", "true", "dave", "1,2", "a,5", "a,5,b,x", "a=5", "1.5", "", "a,x"}
 	for _, cl := range c05Cells {
 		if cl.style == "deepObject" {
